@@ -47,6 +47,9 @@ WHAT = {
  'compared loaded members by equality': ("C02", "Literal[Level.HIGH, 1] (IntEnum): strict load(2) rejected (no enum member loadable next to a 0/1/bool case), lax load(1) -> Level.LOW which is not listed; Literal[SCol.A, 'b'] load('b') -> SCol.B; also breaks C01 and C07 (litenum_load_IntEnum_and_1 di=4, litenum_rt_IntEnum_and_1, litenum_pair_IntEnum_and_1)"),
  'set mixing Decimal and float nan': ("C08", "get_literal_expr({Decimal('1'), float('nan')}) raised decimal.InvalidOperation (sorting the set): loader creation fails for a model with such a default (lit_container kind=2 n=2 s0=12 s1=7; found first by a native fuzz of the renderer)"),
  'generic type aliases': ("C16", "type RevMap[K, V] = dict[V, K]: RevMap[int, str] loaded as dict[int, str] ({'a': 1} rejected, {1: 'a'} accepted) (alias_RevMap_int_str)"),
+ 'keywords or not in NFKC form': ("C19", "TypedDict key / pydantic field named 'class' or 'from': SyntaxError in the generated loader, dumper (data.class) and converter; keys differing only by NFKC form (U+FB01 vs 'fi') shared one generated variable: dump {'\ufb01': 1, 'fi': 2} -> {'fi': 1, '\ufb01': 1}, loader SyntaxError (kwids_build, kwids_case, kwids_pydantic; reported by a seed agent on the clean tree)"),
+ 'pasted into generated code unsanitised': ("C19", "get_converter(name='weird name' / 'class' / \"a'b\" / text with a newline) and impl_converter stubs so named: SyntaxError / IndentationError (the name reaches the def line raw); '_update_wrapper' as stub name -> TypeError; a linked function or destination class whose __name__ is a keyword or empty -> SyntaxError (kwids_build, conv_names)"),
+ 'members of equal sort keys': ("C15", "normalize_type(List[Union[list[Literal[1]], list[Literal['1']]]]) != normalize_type(list[Union[list[Literal['1']], list[Literal[1]]]]) (members with equal rendered sort keys kept input order; also Annotated[int, 1] / Annotated[int, '1'], classes / NewTypes of one name, Callable parameter lists spelled List[int] / list[int]); hashes differed too (congruence samekey_*; reported by a seed agent on the clean tree)"),
 }
 WHAT.update(json.load(open('/verif/tools/fixed_extra.json')) if __import__('os').path.exists('/verif/tools/fixed_extra.json') else {})
 log = subprocess.run(["git", "-C", "/repo", "log", "--format=%h %s"], capture_output=True, text=True).stdout.splitlines()
